@@ -10,6 +10,7 @@ import (
 
 	"verif/internal/ev"
 	"verif/internal/prng"
+	"verif/internal/ref"
 )
 
 func init() { register("C18", "exploration", checkC18) }
@@ -27,7 +28,7 @@ func dictTable() [41]int64 {
 }
 
 func checkC18(c *ev.Ctx) {
-	c.SetRule("all 256 code bytes through DecodeDictCap; all capacities 1..2^32-1 through EncodeDictCap, each compared with the code a running pointer over the 41-entry specification table predicts (distinct non-trivial = distinct (chosen code) classes observed plus distinct decode outcomes); plus the dictionary byte of block headers emitted by xz.Writer for sampled DictCap values")
+	c.SetRule("all 256 code bytes through DecodeDictCap and (as the dictionary byte of an otherwise valid .xz stream) through xz.Reader; all capacities 1..2^32-1 through EncodeDictCap, each compared with the code a running pointer over the 41-entry specification table predicts (distinct non-trivial = distinct (chosen code) classes observed plus distinct decode outcomes); plus the dictionary byte of block headers emitted by xz.Writer for sampled DictCap values")
 	c.Assume("the 41-entry table (2|c&1)<<(c/2+11), 2^32-1 for code 40, transcribed from xz-file-format 1.0.4 section 5.3.1 is the specification")
 	tab := dictTable()
 
@@ -112,6 +113,32 @@ func checkC18(c *ev.Ctx) {
 		c.Set("exhaustive_part", "EncodeDictCap over all 2^32-1 capacities and DecodeDictCap over all 256 codes; the block-header part is sampled")
 		c.Sample(map[string]any{"n": 4097, "EncodeDictCap": lzma.EncodeDictCap(4097), "expected_code": 1})
 		c.Sample(map[string]any{"n": int64(1<<32 - 1), "EncodeDictCap": lzma.EncodeDictCap(1<<32 - 1), "expected_code": 40})
+	}
+
+	// Part 2b: the code byte as the xz reader sees it: a valid stream built by the
+	// independent serializer with every one of the 256 values as dictionary byte.
+	// Codes above 30 (> 128 MiB) are only required to be accepted/rejected at the
+	// header level for the invalid ones; valid large ones are not read (the reader
+	// allocates what the header declares).
+	if want(c, "reader") {
+		l2, content, _ := ref.GenLZMA2(prng.New(c.Seed, 181), ref.LZMA2Plan{DictSize: 4096, NChunks: 2, OpsPer: 40})
+		for code := 0; code < 256; code++ {
+			if code > 30 && code <= 40 {
+				continue
+			}
+			stream := ref.BuildXZ(ref.CheckCRC32, []ref.BlockSpec{{LZMA2: l2, Content: content, DictCode: byte(code)}})
+			out, err := libXZ(stream, xz.ReaderConfig{DictCap: 4096})
+			c.Eval(fmt.Sprintf("reader-code-%d", code), true)
+			if code <= 30 && (err != nil || !bytes.Equal(out, content)) {
+				c.Violation("reader-rejects-valid-dict-code", map[string]any{"case_id": "reader", "code": code,
+					"what": fmt.Sprintf("xz.Reader on a valid stream whose block header declares dictionary code %d: %v (%d of %d bytes)", code, err, len(out), len(content))})
+			}
+			if code > 40 && err == nil {
+				c.Violation("reader-accepts-invalid-dict-code", map[string]any{"case_id": "reader", "code": code,
+					"what": fmt.Sprintf("xz.Reader accepts a block header with the invalid dictionary code %#02x (decoded %d bytes)", code, len(out))})
+			}
+			c.Count("reader_dict_codes_checked", 1)
+		}
 	}
 
 	// Part 3: the dictionary byte actually emitted in block headers.
